@@ -768,6 +768,172 @@ example : ∀ over : Bool, (match appendInto DT (fileOf {} "u" exF) exR (["a"] +
     | .ok f => validFile DT {} f && (f.at ["r", "a", "newdeep"]).isSome && (f.at ["r", "a", "new"]).isNone
     | .error _ => false) = true := by decide
 
+/-- C05 after a targeted APPEND-OVER of a node that is in the file, ALONE (`C09_target_over_single`, tree=False, parent
+    below the root): the node's content is replaced, its file children re-linked, and the file is still well-formed EMD 1.0 -/
+theorem C05_target_over_single (sess : Session) (f : Obj) (F Rt P D : Tree) (body' : List (String × Obj))
+    (n0 : String) (q0 : List String)
+    (hv : validFile DT sess f = true)
+    (hFok : F.allInfo infoOK = true) (hRok : Rt.allInfo infoOK = true)
+    (hmdR : (mdEntries Rt.info).all (fun kv => mdEntryOK kv.2) = true)
+    (hF : F.rootedWF CT DT = true) (hR : Rt.rootedWF CT DT = true) (hname : Rt.name = F.name)
+    (hf : alookup F.name f.kids = some (encode F)) (hroot : (rootGroups f).contains F.name = true)
+    (hmdname : "metadatabundle" ∉ names F.kids)
+    (hmd : mdBody true F.info.body (mdEntries Rt.info) = .ok body')
+    (hP : (withBody F body').at (n0 :: q0) = some P) (hD : Rt.at ((n0 :: q0) ++ [D.name]) = some D)
+    (hin : (findKid D.name P.kids).isSome = true)
+    (hcompat : compatOne true P.info P.kids (akeys P.info.body ++ names P.kids ++ [D.name]) (.mk D.info []) = true) :
+    ∃ f', appendInto DT f Rt ((n0 :: q0) ++ [D.name]) true .no none = .ok f' ∧ validFile DT sess f' = true := by
+  obtain ⟨pk1, hw1, hap, hother, hat⟩ :=
+    C09_target_over_single f F Rt P D body' (n0 :: q0) hF hR hname hf hroot hmdname hmd hP hD hin hcompat
+  refine ⟨_, hap, ?_⟩
+  obtain ⟨hF1ok, hF1r⟩ := withBody_ok true F Rt.info body' hFok hF hmdname hmdR hmd
+  have hF1w : (withBody F body').wf CT DT = true := by
+    simp only [Tree.rootedWF, Bool.and_eq_true] at hF1r; exact hF1r.1.1
+  obtain ⟨hPw, hPd⟩ := wf_at (n0 :: q0) (withBody F body') P hF1w hP
+  have hPok := allInfo_kids infoOK P (allInfo_at infoOK (n0 :: q0) (withBody F body') P hF1ok hP)
+  have hDok := allInfo_kids infoOK D (allInfo_at infoOK _ Rt D hRok hD)
+  have hP'ok : (Tree.mk P.info pk1).allInfo infoOK = true := by
+    apply allInfo_of_paths infoOK _ hw1 hPok.2
+    intro n p i hi
+    simp only [Tree.kids_mk] at hi
+    by_cases hn : n = D.name
+    · subst hn
+      rw [hat p] at hi
+      cases hf1 : cK P.kids D.name p with
+      | none =>
+        rw [hf1] at hi
+        simp only [combine] at hi
+        cases p with
+        | nil => simp only [Tree.at, Option.map_some, Option.some.injEq] at hi; subst hi; exact hDok.2
+        | cons a l => simp [Tree.at, findKid] at hi
+      | some x =>
+        rw [hf1] at hi
+        cases p with
+        | nil =>
+          simp only [Tree.at, Option.map_some, combine, Option.some.injEq] at hi
+          subst hi
+          split
+          · exact hDok.2
+          · exact paths_of_allInfo infoOK P.kids hPok.1 _ _ x hf1
+        | cons a l =>
+          simp only [Tree.at, Tree.kids_mk, findKid, List.find?_nil, Option.map_none, combine, Option.some.injEq] at hi
+          subst hi
+          exact paths_of_allInfo infoOK P.kids hPok.1 _ _ x hf1
+    · have e : cK pk1 n p = cK P.kids n p := by
+        simp only [cK, Tree.at, Tree.kids_mk, hother n hn]
+      rw [e] at hi
+      exact paths_of_allInfo infoOK P.kids hPok.1 n p i hi
+  have hwf := replaceAt_wf (ct := CT) (dt := DT) (n0 :: q0) (withBody F body') P (.mk P.info pk1) hF1w hP hw1
+    (by cases P; rfl) (fun h => by cases P; exact hPd h)
+  have hall := allInfo_replaceAt infoOK (n0 :: q0) (withBody F body') _ hF1ok hP'ok
+  exact C05_replace_root sess f F.name _ hv (rootedWF_replaceAt (withBody F body') _ n0 q0 hF1r hwf) hall
+
+-- non-vacuity / model run for `C05_target_over_single`: the file holds r/a/b (an Array with a child `keep`), the runtime tree
+-- holds r/a/b as a plain Node; append-over of a/b alone: hypotheses hold, b becomes a Node, `keep` is re-linked, the file validates
+def exOF : Tree :=
+  .mk { name := "r", cls := "Root", gtype := "root", body := [] }
+    [ .mk { name := "a", cls := "Node", gtype := "node", body := [] }
+        [ .mk { name := "b", cls := "Array", gtype := "array", body := exBody }
+            [ .mk { name := "keep", cls := "Node", gtype := "node", body := [] } [] ] ] ]
+def exOR : Tree :=
+  .mk { name := "r", cls := "Root", gtype := "root", body := [] }
+    [ .mk { name := "a", cls := "Node", gtype := "node", body := [] }
+        [ .mk { name := "b", cls := "Node", gtype := "node", body := [] } [] ] ]
+example : exOF.rootedWF CT DT = true ∧ exOR.rootedWF CT DT = true ∧ exOF.allInfo infoOK = true ∧ exOR.allInfo infoOK = true ∧
+    validFile DT {} (fileOf {} "u" exOF) = true ∧
+    (match exOF.at ["a"], exOR.at (["a"] ++ ["b"]) with
+     | some P, some D => (findKid D.name P.kids).isSome &&
+         compatOne true P.info P.kids (akeys P.info.body ++ names P.kids ++ [D.name]) (.mk D.info [])
+     | _, _ => false) = true := by decide
+example : (match appendInto DT (fileOf {} "u" exOF) exOR (["a"] ++ ["b"]) true .no none with
+    | .ok f => validFile DT {} f && (f.at ["r", "a", "b"]).bind Obj.pyClass == some "Node" && (f.at ["r", "a", "b", "keep"]).isSome
+    | .error _ => false) = true := by decide
+
+/-- children that are the old ones except under one name, where they are path by path the append-over `combine` of the old
+    branch and a valid-bodied tree `E`, have only valid bodies -/
+theorem allInfo_over (pi : NodeInfo) (pk pk1 : List Tree) (E : Tree) (nm : String)
+    (hw1 : (Tree.mk pi pk1).wf CT DT = true) (hpi : infoOK pi = true) (hpk : allInfoKids infoOK pk = true)
+    (hE : E.allInfo infoOK = true)
+    (hother : ∀ m, m ≠ nm → findKid m pk1 = findKid m pk)
+    (hat : ∀ p, cK pk1 nm p = combine true (cK pk nm p) ((E.at p).map Tree.info)) :
+    (Tree.mk pi pk1).allInfo infoOK = true := by
+  apply allInfo_of_paths infoOK _ hw1 hpi
+  intro n p i hi
+  simp only [Tree.kids_mk] at hi
+  by_cases hn : n = nm
+  · subst hn
+    rw [hat p] at hi
+    have hEp : ∀ j, (E.at p).map Tree.info = some j → infoOK j = true := by
+      intro j hj
+      simp only [Option.map_eq_some_iff] at hj
+      obtain ⟨d, hd, rfl⟩ := hj
+      exact (allInfo_kids infoOK d (allInfo_at infoOK p E d hE hd)).2
+    cases hf1 : cK pk n p with
+    | none =>
+      rw [hf1] at hi
+      simp only [combine] at hi
+      exact hEp i hi
+    | some x =>
+      rw [hf1] at hi
+      cases he : (E.at p).map Tree.info with
+      | none =>
+        rw [he] at hi; simp only [combine, Option.some.injEq] at hi
+        subst hi; exact paths_of_allInfo infoOK pk hpk _ _ x hf1
+      | some y =>
+        rw [he] at hi; simp only [combine, Option.some.injEq, if_true] at hi
+        subst hi; exact hEp _ he
+  · have e : cK pk1 n p = cK pk n p := by
+      simp only [cK, hother n hn]
+    rw [e] at hi
+    exact paths_of_allInfo infoOK pk hpk n p i hi
+
+/-- C05 after a targeted APPEND-OVER of a node that is in the file, WITH ITS BRANCH (`C09_target_over_branch`, tree=True,
+    parent below the root): content replaced, file-only children kept, runtime children merged — and the file is still
+    well-formed EMD 1.0 -/
+theorem C05_target_over_branch (sess : Session) (f : Obj) (F Rt P D : Tree) (body' : List (String × Obj))
+    (n0 : String) (q0 : List String)
+    (hv : validFile DT sess f = true)
+    (hFok : F.allInfo infoOK = true) (hRok : Rt.allInfo infoOK = true)
+    (hmdR : (mdEntries Rt.info).all (fun kv => mdEntryOK kv.2) = true)
+    (hF : F.rootedWF CT DT = true) (hR : Rt.rootedWF CT DT = true) (hname : Rt.name = F.name)
+    (hf : alookup F.name f.kids = some (encode F)) (hroot : (rootGroups f).contains F.name = true)
+    (hmdname : "metadatabundle" ∉ names F.kids)
+    (hmd : mdBody true F.info.body (mdEntries Rt.info) = .ok body')
+    (hP : (withBody F body').at (n0 :: q0) = some P) (hD : Rt.at ((n0 :: q0) ++ [D.name]) = some D)
+    (hin : (findKid D.name P.kids).isSome = true)
+    (hcompat : compatOne true P.info P.kids (akeys P.info.body ++ names P.kids ++ [D.name]) D = true) :
+    ∃ f', appendInto DT f Rt ((n0 :: q0) ++ [D.name]) true .yes none = .ok f' ∧ validFile DT sess f' = true := by
+  obtain ⟨pk1, hw1, hap, hother, hat⟩ :=
+    C09_target_over_branch f F Rt P D body' (n0 :: q0) hF hR hname hf hroot hmdname hmd hP hD hin hcompat
+  refine ⟨_, hap, ?_⟩
+  obtain ⟨hF1ok, hF1r⟩ := withBody_ok true F Rt.info body' hFok hF hmdname hmdR hmd
+  have hF1w : (withBody F body').wf CT DT = true := by
+    simp only [Tree.rootedWF, Bool.and_eq_true] at hF1r; exact hF1r.1.1
+  obtain ⟨hPw, hPd⟩ := wf_at (n0 :: q0) (withBody F body') P hF1w hP
+  have hPok := allInfo_kids infoOK P (allInfo_at infoOK (n0 :: q0) (withBody F body') P hF1ok hP)
+  have hDok := allInfo_at infoOK _ Rt D hRok hD
+  have hP'ok := allInfo_over P.info P.kids pk1 D D.name hw1 hPok.2 hPok.1 hDok hother hat
+  have hwf := replaceAt_wf (ct := CT) (dt := DT) (n0 :: q0) (withBody F body') P (.mk P.info pk1) hF1w hP hw1
+    (by cases P; rfl) (fun h => by cases P; exact hPd h)
+  have hall := allInfo_replaceAt infoOK (n0 :: q0) (withBody F body') _ hF1ok hP'ok
+  exact C05_replace_root sess f F.name _ hv (rootedWF_replaceAt (withBody F body') _ n0 q0 hF1r hwf) hall
+
+-- model run for `C05_target_over_branch` on the pair above with a runtime child below b: b replaced, `keep` kept, `fresh` merged
+def exOR2 : Tree :=
+  .mk { name := "r", cls := "Root", gtype := "root", body := [] }
+    [ .mk { name := "a", cls := "Node", gtype := "node", body := [] }
+        [ .mk { name := "b", cls := "Node", gtype := "node", body := [] }
+            [ .mk { name := "fresh", cls := "Node", gtype := "node", body := [] } [] ] ] ]
+example : exOR2.rootedWF CT DT = true ∧ exOR2.allInfo infoOK = true ∧
+    (match exOF.at ["a"], exOR2.at (["a"] ++ ["b"]) with
+     | some P, some D => (findKid D.name P.kids).isSome &&
+         compatOne true P.info P.kids (akeys P.info.body ++ names P.kids ++ [D.name]) D
+     | _, _ => false) = true := by decide
+example : (match appendInto DT (fileOf {} "u" exOF) exOR2 (["a"] ++ ["b"]) true .yes none with
+    | .ok f => validFile DT {} f && (f.at ["r", "a", "b"]).bind Obj.pyClass == some "Node" && (f.at ["r", "a", "b", "keep"]).isSome &&
+               (f.at ["r", "a", "b", "fresh"]).isSome
+    | .error _ => false) = true := by decide
+
 /-! ### per-class body validity: what `Array.to_h5` writes is a valid Array body -/
 
 theorem dim_prefix (n : Nat) : ((autoName "dim" n).toList.take 3 == ['d', 'i', 'm']) = true := by
